@@ -19,6 +19,7 @@ import Driver.Journal
 import Driver.JsonRpc
 import Driver.NodeCache
 import Driver.NodeSync
+import Driver.ConsensusStore
 /-
 One line per handler object. The first handler that understands a line answers it.
 -/
@@ -53,7 +54,9 @@ def registry : List Obj := [
   pureObj pureArRecv,
   mkObj ({} : JrSt) jrStep,
   pureObj pureJsonRpc,
-  mkObj ([] : NcAll) ncStep
+  mkObj ([] : NcAll) ncStep,
+  pureObj pureConsStore,
+  mkObj ({} : CsDbSt) csDbStep
 ]
 
 end ZV.Driver
